@@ -6,16 +6,19 @@
 (* and the temperature sugar, with leaves from a small typed universe.     *)
 (*                                                                         *)
 (* MC (a property of the echo RULES, Printer.tla):                         *)
-(*   RoundTripInv   Read(Print(Variant, t)) = t  up to re-association of   *)
+(*   CheckAndEmit   Read(Print(Variant, t)) = t  up to re-association of   *)
 (*                  products and sums, the pieces are spelled as Lexer.tla *)
 (*                  says and need no separator where they touch.           *)
 (*                  Variant = "pinned": TLC reports a counterexample (the  *)
 (*                  implemented table has defective entries);              *)
 (*                  Variant = "repaired": holds.                           *)
-(* G: EmitCase prints, for every tree, the input text (fully parenthesised,*)
-(*    ASCII), the echo predicted by the pinned and by the repaired rules,  *)
-(*    whether the pinned echo reads back (spec level), the table entries   *)
-(*    that make the two echoes differ, and whether the echo re-associates. *)
+(* G: the same invariant (CheckAndEmit) prints, for every tree, the input  *)
+(*    text (fully parenthesised, ASCII), the echo predicted by the pinned  *)
+(*    and by the repaired rules, whether each reads back (spec level), the *)
+(*    table entries that make the two echoes differ, whether the echo      *)
+(*    re-associates and, if so, the predicted echo of the echo.            *)
+(* Configurations: MC_Printer_repaired.cfg (holds), MC_Printer_pinned.cfg  *)
+(* (TLC reports the first counterexample); the check generates its own.    *)
 (*                                                                         *)
 (* Trees are enumerated in Polish notation: ps = the constructors chosen   *)
 (* so far, need = the sorts of the operands still missing.                 *)
@@ -27,7 +30,7 @@
 EXTENDS Printer, Json
 
 CONSTANTS MaxNodes,   \* most nodes per tree
-          Variant,    \* "pinned" | "repaired": the table RoundTripInv is stated for
+          Variant,    \* "pinned" | "repaired": the table the invariant is stated for
           Wide        \* FALSE: the quick alphabet; TRUE: more leaves and comparison operators
 
 \* a constructor: the operator, the sort of the result, the sorts of the operands
